@@ -10,7 +10,9 @@
 (***************************************************************************)
 EXTENDS IterIdeal
 
-Meta(md) == [j \in DOMAIN md.funcs |-> [fid |-> md.nimp + j - 1, n |-> md.funcs[j]]]
+\* get_func_metadata: the local functions in function-ID order (a replaced import keeps its ID 0)
+Meta(md) == (IF Repl(md) > 0 THEN <<[fid |-> 0, n |-> Repl(md)]>> ELSE <<>>)
+            \o [j \in DOMAIN md.funcs |-> [fid |-> md.nimp + j - 1, n |-> md.funcs[j]]]
 
 \* ---- FuncSubIterator ------------------------------------------------------------------------------
 F_New(n)      == [ci |-> 0, n |-> n]
@@ -72,6 +74,67 @@ O_WalkR(mt, sk, s, fuel) ==
          \o (IF r.ok THEN O_WalkR(mt, sk, r.s, fuel - 1) ELSE <<>>)
 WalkOld(md, sk) == LET s == O_New(Meta(md), sk) IN
                    IF s.panic THEN <<[fid |-> -1, idx |-> -1, end |-> TRUE]>> ELSE O_WalkR(Meta(md), sk, s, 64)
+
+\* ---- ComponentSubIterator (component_subiterator.rs) --------------------------------------------------------
+\* mods: sequence of module shapes; sks: sequence of skip sets; state [cm (0-based curr_mod), s (module sub-iterator)]
+ModHas(mods, sks, c) == c.cm < Len(mods) /\ HasCurr(Meta(mods[c.cm + 1]), c.s)
+RECURSIVE C_NextModule(_, _, _, _)
+C_NextModule(mods, sks, c, fuel) ==       \* current code: loop to the next module that has something to visit
+    LET m == c.cm + 1 IN
+    IF m >= Len(mods) \/ fuel = 0 THEN [ok |-> FALSE, c |-> [c EXCEPT !.cm = m]]
+    ELSE LET s == M_New(Meta(mods[m + 1]), sks[m + 1])
+             c1 == [cm |-> m, s |-> s]
+         IN IF HasCurr(Meta(mods[m + 1]), s) THEN [ok |-> TRUE, c |-> c1] ELSE C_NextModule(mods, sks, c1, fuel - 1)
+C_New(mods, sks) ==
+    IF Len(mods) = 0 THEN [cm |-> 0, s |-> M_New(<<>>, {})]
+    ELSE LET c0 == [cm |-> 0, s |-> M_New(Meta(mods[1]), sks[1])] IN
+         IF HasCurr(Meta(mods[1]), c0.s) THEN c0 ELSE C_NextModule(mods, sks, c0, 16).c
+C_Next(mods, sks, c) ==
+    LET mt == Meta(mods[c.cm + 1]) sk == sks[c.cm + 1] IN
+    IF F_HasNext(c.s.f) \/ M_HasNextFunction(mt, sk, c.s)
+    THEN LET r == M_Next(mt, sk, c.s) IN [ok |-> r.ok, c |-> [c EXCEPT !.s = r.s]]
+    ELSE C_NextModule(mods, sks, c, 16)
+RECURSIVE C_WalkR(_, _, _, _)
+C_WalkR(mods, sks, c, fuel) ==
+    IF fuel = 0 \/ ~ModHas(mods, sks, c) THEN <<>>
+    ELSE LET r == C_Next(mods, sks, c)
+             l == M_Loc(Meta(mods[c.cm + 1]), c.s) IN
+         <<[mod |-> c.cm, fid |-> l.fid, idx |-> l.idx, end |-> l.end]>>
+         \o (IF r.ok THEN C_WalkR(mods, sks, r.c, fuel - 1) ELSE <<>>)
+CompWalkNow(mods, sks) == C_WalkR(mods, sks, C_New(mods, sks), 64)
+
+\* the pinned tree: next_module takes the NEXT module whatever it holds (empty, or all functions skipped), over the
+\* former module sub-iterator; its has_next believed a skipped trailing function was still to come, so next() entered
+\* next_function, found nothing and returned false: the walk stopped and later modules were never reached (S30)
+O_CNext(mods, sks, c) ==
+    LET mt == Meta(mods[c.cm + 1]) sk == sks[c.cm + 1] IN
+    IF F_HasNext(c.s.f) \/ O_HasNextFunction(mt, c.s)
+    THEN LET r == O_Next(mt, sk, c.s) IN [ok |-> r.ok, c |-> [c EXCEPT !.s = r.s]]
+    ELSE LET m == c.cm + 1 IN
+         IF m >= Len(mods) THEN [ok |-> FALSE, c |-> [c EXCEPT !.cm = m]]
+         ELSE LET s == O_New(Meta(mods[m + 1]), sks[m + 1]) IN
+              IF s.panic THEN [ok |-> FALSE, c |-> [cm |-> m, s |-> c.s, panic |-> TRUE]]
+              ELSE [ok |-> TRUE, c |-> [cm |-> m, s |-> s]]
+RECURSIVE O_CWalkR(_, _, _, _)
+O_CWalkR(mods, sks, c, fuel) ==
+    IF fuel = 0 THEN <<>>
+    ELSE LET mt == Meta(mods[c.cm + 1]) IN
+         IF c.s.idx >= Len(mt) THEN <<[mod |-> c.cm, fid |-> -1, idx |-> -1, end |-> TRUE]>>
+         ELSE LET r == O_CNext(mods, sks, c) IN
+              <<[mod |-> c.cm, fid |-> mt[c.s.idx + 1].fid, idx |-> c.s.f.ci, end |-> F_IsEnd(c.s.f, c.s.f.ci)]>>
+              \o (IF r.ok THEN O_CWalkR(mods, sks, r.c, fuel - 1) ELSE <<>>)
+CompWalkOld(mods, sks) ==
+    LET s == O_New(Meta(mods[1]), sks[1]) IN
+    IF s.panic THEN <<[mod |-> 0, fid |-> -1, idx |-> -1, end |-> TRUE]>> ELSE O_CWalkR(mods, sks, [cm |-> 0, s |-> s], 64)
+
+IdealCompWalk(mods, sks) ==
+    LET v == Visit(mods, [m \in DOMAIN mods |-> IF sks[m] = {} THEN <<>> ELSE
+                             LET q == CHOOSE q \in [1 .. Cardinality(sks[m]) -> sks[m]] : {q[i] : i \in DOMAIN q} = sks[m] IN q])
+    IN [i \in DOMAIN v |-> [mod |-> v[i].mod, fid |-> v[i].fid, idx |-> v[i].idx, end |-> v[i].end]]
+
+\* S30: the first module's trailing function is skipped: the former iterator never reaches the second module
+ASSUME LET mods == << [nimp |-> 0, funcs |-> <<1, 1>>], [nimp |-> 0, funcs |-> <<1>>] >> sks == << {1}, {} >> IN
+       CompWalkOld(mods, sks) # IdealCompWalk(mods, sks) /\ CompWalkNow(mods, sks) = IdealCompWalk(mods, sks)
 
 \* ---- the Ideal, projected to what the sub-iterator reports ------------------------------------------------
 IdealWalk(md, sk) == LET v == ModVisit(0, md, sk) IN [i \in DOMAIN v |-> [fid |-> v[i].fid, idx |-> v[i].idx, end |-> v[i].end]]
